@@ -514,8 +514,15 @@ class MgmComputation(VariableComputation):
             if self.logger.isEnabledFor(logging.DEBUG):
                 self.logger.debug(f"Has all gains {self._gain}, {gains}")
             # determine if can change value and send ok message to neighbors
-            max_neighbors = max([gain for gain, _ in gains.values()])
-            if self._gain > max_neighbors:
+            # In max mode an improvement is a negative gain: the best gain among
+            # our neighbors is then the lowest one.
+            if self._mode == "min":
+                max_neighbors = max([gain for gain, _ in gains.values()])
+                is_best = self._gain > max_neighbors
+            else:
+                max_neighbors = min([gain for gain, _ in gains.values()])
+                is_best = self._gain < max_neighbors
+            if is_best:
                 if self.logger.isEnabledFor(logging.INFO):
                     self.logger.info(
                         f"Selects new value {self._new_value}, "
